@@ -14,15 +14,17 @@
 EXTENDS Integers, Sequences, FiniteSets, TLC, Json
 
 CONSTANTS Mode, TargetPool, SenderPool, TypePool, DataPool, MaxBatch,
-          HTypeTabs, HTargetTabs, HSenderTabs, HIdx, HData, HMaxMsgs,
+          HTypeTabs, HTargetTabs, HSenderTabs, HIdx, HData, HMaxMsgs, HMaxEnvs,
           FixNoSender, FixKey, FixHole, FixNonProto, FixBounds, Export
 
 VARIABLES batch,                                  \* roundtrip input
           phase, i,                               \* "write" | "read" | "done"; loop index (1-based)
           typeNames, targets, senders, messages,  \* the envelope (tables 1-based here, indices 0-based as on the wire)
-          delivered, err, panicked                \* what SendLocal was called with; stream ended with an error; goroutine died
+          delivered, err, panicked,               \* what SendLocal was called with; stream ended with an error; goroutine died
+          later, base, first                      \* hostile mode: the envelopes still to come on this stream; deliveries
+                                                  \* made before the current envelope; the whole stream (for the export)
 
-vars == <<batch, phase, i, typeNames, targets, senders, messages, delivered, err, panicked>>
+vars == <<batch, phase, i, typeNames, targets, senders, messages, delivered, err, panicked, later, base, first>>
 
 NilPID == [a |-> "nil", i |-> "nil"]
 Registered == TypePool \cup {"empty"}
@@ -64,7 +66,7 @@ WStep ==
                                       IF m.ser # "ok" THEN Hole      \* pre-repair: tables filled, entry left nil
                                       ELSE [data |-> m.data, ti |-> IndexOfKey(tg2, m.target) - 1, si |-> si,
                                             tni |-> IndexOf(tn2, m.type) - 1])
-  /\ UNCHANGED <<batch, delivered, err>>
+  /\ UNCHANGED <<batch, delivered, err, later, base, first>>
 
 (* ---------------------------------------------------------------- reader *)
 InRange(ix, tab) == ix >= 0 /\ ix < Len(tab)
@@ -77,26 +79,35 @@ DeliveryOf(m) == [target |-> targets[m.ti + 1], type |-> typeNames[m.tni + 1], d
 RStep ==
   /\ phase = "read" /\ ~panicked
   /\ IF i > Len(messages)
-     THEN phase' = "done" /\ UNCHANGED <<i, delivered, err, panicked>>
-     ELSE LET m == messages[i] IN
-          IF ~ValidMsg(m)
-          THEN IF FixBounds THEN err' = TRUE /\ phase' = "done" /\ UNCHANGED <<i, delivered, panicked>>
-                            ELSE panicked' = TRUE /\ UNCHANGED <<i, delivered, err, phase>>
-          ELSE IF ~Decodable(m)
-          THEN err' = TRUE /\ phase' = "done" /\ UNCHANGED <<i, delivered, panicked>>
-          ELSE delivered' = Append(delivered, DeliveryOf(m)) /\ i' = i + 1 /\ UNCHANGED <<phase, err, panicked>>
-  /\ UNCHANGED <<batch, typeNames, targets, senders, messages>>
+     THEN IF later = <<>> THEN phase' = "done" /\ UNCHANGED <<i, delivered, err, panicked, typeNames, targets, senders, messages, later, base>>
+          ELSE \* stream.Recv() returns the next envelope of the same stream
+               /\ typeNames' = Head(later).typeNames /\ targets' = Head(later).targets /\ senders' = Head(later).senders
+               /\ messages' = Head(later).messages /\ later' = Tail(later) /\ base' = Len(delivered) /\ i' = 1
+               /\ UNCHANGED <<phase, delivered, err, panicked>>
+     ELSE /\ UNCHANGED <<typeNames, targets, senders, messages, later, base>>
+          /\ LET m == messages[i] IN
+               IF ~ValidMsg(m)
+               THEN IF FixBounds THEN err' = TRUE /\ phase' = "done" /\ UNCHANGED <<i, delivered, panicked>>
+                                 ELSE panicked' = TRUE /\ UNCHANGED <<i, delivered, err, phase>>
+               ELSE IF ~Decodable(m)
+               THEN err' = TRUE /\ phase' = "done" /\ UNCHANGED <<i, delivered, panicked>>
+               ELSE delivered' = Append(delivered, DeliveryOf(m)) /\ i' = i + 1 /\ UNCHANGED <<phase, err, panicked>>
+  /\ UNCHANGED <<batch, first>>
 
 (* ---------------------------------------------------------------- init *)
 HMsgs == [data : HData, ti : HIdx, si : HIdx, tni : HIdx]
+HEnvs == [typeNames : HTypeTabs, targets : HTargetTabs, senders : HSenderTabs, messages : SeqsUpTo(HMsgs, HMaxMsgs) \ {<<>>}]
 Init ==
   /\ delivered = <<>> /\ err = FALSE /\ panicked = FALSE /\ i = 1
+  /\ base = 0
   /\ IF Mode = "roundtrip"
-     THEN /\ batch \in Batches /\ phase = "write"
+     THEN /\ batch \in Batches /\ phase = "write" /\ later = <<>> /\ first = <<>>
           /\ typeNames = <<>> /\ targets = <<>> /\ senders = <<>> /\ messages = <<>>
      ELSE /\ batch = <<>> /\ phase = "read"
           /\ typeNames \in HTypeTabs /\ targets \in HTargetTabs /\ senders \in HSenderTabs
           /\ messages \in (SeqsUpTo(HMsgs, HMaxMsgs) \ {<<>>})
+          /\ later \in SeqsUpTo(HEnvs, HMaxEnvs - 1)
+          /\ first = <<[typeNames |-> typeNames, targets |-> targets, senders |-> senders, messages |-> messages]>> \o later
 
 Next == WStep \/ RStep
 Spec == Init /\ [][Next]_vars
@@ -112,17 +123,17 @@ C15_RoundTrip == (Mode = "roundtrip" /\ phase = "done") => (delivered = Want /\ 
 C15_NodeLives == Mode = "roundtrip" => ~panicked
 (* C16: never a panic; a delivery only for a message whose own indices are valid, to the target / with the type they name *)
 C16_NoPanic   == ~panicked
+(* the k-th delivery of the current envelope answers its k-th message *)
 C16_OnlyAddressed ==
-  \A k \in 1..Len(delivered) :
+  \A k \in 1..(Len(delivered) - base) :
      /\ k <= Len(messages) /\ ValidMsg(messages[k]) /\ Decodable(messages[k])
-     /\ delivered[k].target = targets[messages[k].ti + 1] /\ delivered[k].type = typeNames[messages[k].tni + 1]
+     /\ delivered[base + k].target = targets[messages[k].ti + 1] /\ delivered[base + k].type = typeNames[messages[k].tni + 1]
 C16_ErrOnlyOnBad ==
-  err => (Len(delivered) < Len(messages) /\ ~(ValidMsg(messages[Len(delivered) + 1]) /\ Decodable(messages[Len(delivered) + 1])))
-C16_AllOrError == phase = "done" => (err \/ Len(delivered) = Len(messages))
+  err => (Len(delivered) - base < Len(messages) /\ ~(ValidMsg(messages[Len(delivered) - base + 1]) /\ Decodable(messages[Len(delivered) - base + 1])))
+C16_AllOrError == phase = "done" => (err \/ (Len(delivered) - base = Len(messages) /\ later = <<>>))
 
 (* ---------------------------------------------------------------- case export (B-table) *)
-Case == [mode |-> Mode, batch |-> batch, typeNames |-> typeNames, targets |-> targets, senders |-> senders,
-         messages |-> messages, delivered |-> delivered, err |-> err]
+Case == [mode |-> Mode, batch |-> batch, envs |-> first, delivered |-> delivered, err |-> err]
 ExportCase == (Export /\ phase = "done") => PrintT(<<"CASE", ToJson(Case)>>)
 TypeOK == phase \in {"write", "read", "done"} /\ i \in 1..100
 =============================================================================
